@@ -150,3 +150,30 @@ Definition nsim_timed_from_start (pick : list (comp * bool) -> option comp) (fue
   | None => None
   end.
 End NSim.
+
+(* ---------- the same scripts on the deterministic whole-simulation model (Model/Sim.v): ticks are
+   [tick_level], i.e. the components folded in the order of the level *)
+Section SimScript.
+Variable cfg : config.
+Variable devf : devfun.
+Variable fuel : nat.
+
+Fixpoint sim_script (script : list item) (s : sstate) (ob : list obs) : sstate * list obs :=
+  match script with
+  | [] => (s, ob)
+  | IStim c w :: r => sim_script r (stim s c w) ob
+  | ITick :: r =>
+      match first_wakeups (wake_of s top) with
+      | None => sim_script r s ob
+      | Some (when, roots) =>
+          let s1 := set_wake s top (filter (fun e : comp * Z => negb (memb (fst e) roots)) (wake_of s top)) in
+          let '(s2, _, o) := tick_level cfg devf fuel top when roots [] (log_tick s1 top when roots) in
+          sim_script r s2 (ob ++ o)
+      end
+  end.
+
+Definition sim_script_from_start (initial : Z) (script : list item) : sstate * list obs :=
+  let roots := map fst (l_order (level_of cfg top)) in
+  let '(s1, _, ob) := tick_level cfg devf fuel top initial roots [] (log_tick (set_wake s_init top []) top initial roots) in
+  sim_script script s1 ob.
+End SimScript.
